@@ -293,6 +293,44 @@ Definition sub_new (w : world) (o : nat) (name : bytes) : world * nat :=
   let ns := get_ns w (h_ns t) in
   (put_ns w (h_ns t) (mknsp (assoc_set name o' (n_set ns)) (n_escaped ns) (n_csp ns) (n_esc ns)), o').
 
+(* text/template Clone of the text template x: a new common; the own name (if registered) maps to a
+   copy of x, every other name of the association to a copy of its text template *)
+Definition clone_text (w : world) (x : textobj) : world * nat * nat :=
+  let '(w1, cid) := new_common w in
+  let '(w1, ntid) := new_text w1 (mktext (x_name x) (x_tree x) cid) in
+  let w1 := match assoc_get (x_name x) (get_common w1 (x_common x)) with
+            | Some _ => put_common w1 cid [(x_name x, ntid)]
+            | None => w1
+            end in
+  let w1 := fold_left (fun w kv =>
+              if bytes_eqb (fst kv) (x_name x) then w
+              else let src := get_text w (snd kv) in
+                   let '(w, c) := new_text w (mktext (x_name src) (x_tree src) cid) in
+                   put_common w cid (assoc_set (fst kv) c (get_common w cid)))
+            (get_common w (x_common x)) w1 in
+  (w1, cid, ntid).
+
+(* one template of the clone's association: a new member of the clone's name space nsid, provided the
+   source set ns has a member of that name which has not been executed *)
+Definition clone_member (ns : nspace) (nsid : nat) (acc : option world) (kv : bytes * nat) : option world :=
+  match acc with
+  | None => None
+  | Some w =>
+      match assoc_get (fst kv) (n_set ns) with
+      | Some src =>
+          match h_err (get_tmpl w src) with
+          | ENotYet =>
+              let xt := get_text w (snd kv) in
+              let '(w, m) := new_tmpl w (mktmpl ENotYet (snd kv)
+                               (match x_tree xt with None => true | Some _ => false end) nsid) in
+              let nsn := get_ns w nsid in
+              Some (put_ns w nsid (mknsp (assoc_set (fst kv) m (n_set nsn)) false false esc_empty))
+          | _ => None
+          end
+      | None => None
+      end
+  end.
+
 Definition step (w : world) (o : op) : world * rclass :=
   match o with
   | ONew name =>
@@ -341,42 +379,13 @@ Definition step (w : world) (o : op) : world * rclass :=
           | ENotYet =>
               let x := get_text w (h_text t) in
               let ns := get_ns w (h_ns t) in
-              (* text Clone: new common; own name -> copy of t.text; others -> copies *)
-              let '(w1, cid) := new_common w in
-              let '(w1, ntid) := new_text w1 (mktext (x_name x) (x_tree x) cid) in
-              let w1 := match assoc_get (x_name x) (get_common w1 (x_common x)) with
-                        | Some _ => put_common w1 cid [(x_name x, ntid)]
-                        | None => w1
-                        end in
-              let w1 := fold_left (fun w kv =>
-                          if bytes_eqb (fst kv) (x_name x) then w
-                          else let src := get_text w (snd kv) in
-                               let '(w, c) := new_text w (mktext (x_name src) (x_tree src) cid) in
-                               put_common w cid (assoc_set (fst kv) c (get_common w cid)))
-                        (get_common w (x_common x)) w1 in
+              let '(w1, cid, ntid) := clone_text w x in
               let '(w1, nsid) := new_ns w1 (mknsp [] false false esc_empty) in
               let '(w1, ret) := new_tmpl w1 (mktmpl ENotYet ntid
                                    (match x_tree x with None => true | Some _ => false end) nsid) in
               let w1 := put_ns w1 nsid (mknsp [(x_name x, ret)] false false esc_empty) in
               (* for every template of the clone's association *)
-              let res := fold_left (fun (acc : option world) kv =>
-                           match acc with
-                           | None => None
-                           | Some w =>
-                               match assoc_get (fst kv) (n_set ns) with
-                               | Some src =>
-                                   match h_err (get_tmpl w src) with
-                                   | ENotYet =>
-                                       let xt := get_text w (snd kv) in
-                                       let '(w, m) := new_tmpl w (mktmpl ENotYet (snd kv)
-                                                        (match x_tree xt with None => true | Some _ => false end) nsid) in
-                                       let nsn := get_ns w nsid in
-                                       Some (put_ns w nsid (mknsp (assoc_set (fst kv) m (n_set nsn)) false false esc_empty))
-                                   | _ => None
-                                   end
-                               | None => None
-                               end
-                           end) (get_common w1 cid) (Some w1) in
+              let res := fold_left (clone_member ns nsid) (get_common w1 cid) (Some w1) in
               match res with
               | None => (w, RErrCannotClone)
               | Some w2 =>
